@@ -13,8 +13,9 @@ package soyjs
 
 // C13: map literals are emitted in sorted key order.
 //@ func (*state).walk
-//@   props C13 C14
+//@   props C13 C14 C09
 //@   noterm
+//@   preserves F!github.com/robfig/soy/ast.* F!github.com/robfig/soy/template.* E!Iface E!Str E!Int:uint8 E!Int:*github.com/robfig/soy/ast.*
 //@   at call template.JSEscape#0 assert[string-literal-escaped-whole;C14] len(arg1) == len(unbox(node, *ast.StringNode).Value) && forall(i, 0, len(arg1), arg1[i] == unbox(node, *ast.StringNode).Value[i])
 //@   at call template.JSEscape#1 assert[map-key-escaped-whole;C14] len(arg1) == len(k) && forall(i, 0, len(arg1), arg1[i] == k[i])
 //@   nosafety
@@ -42,10 +43,11 @@ package soyjs
 
 //@ functype jsEmitter
 //@   params s
-//@   props C14
+//@   props C14 C09
 //@   nosafety
 //@   noterm
 //@   modifies *
+//@   preserves F!github.com/robfig/soy/ast.* F!github.com/robfig/soy/template.* E!Iface E!Str E!Int:uint8 E!Int:*github.com/robfig/soy/ast.*
 
 //@ func (*state).js
 //@   like jsEmitter
@@ -99,21 +101,24 @@ package soyjs
 //@   pure
 //@   trustedensures[names-are-generated;C14] jsok(result)
 //@ func (*scope).makevar
-//@   props C14
+//@   props C14 C09
 //@   nosafety
 //@   modifies *
+//@   preserves F!github.com/robfig/soy/ast.* F!github.com/robfig/soy/template.* E!Iface E!Str E!Int:uint8 E!Int:*github.com/robfig/soy/ast.*
 //@   requires[identifier;C14] jsok(varname)
 //@   ensures[generated-name;C14] jsok(result)
 //@ func (*scope).pushForRange
-//@   props C14
+//@   props C14 C09
 //@   nosafety
 //@   modifies *
+//@   preserves F!github.com/robfig/soy/ast.* F!github.com/robfig/soy/template.* E!Iface E!Str E!Int:uint8 E!Int:*github.com/robfig/soy/ast.*
 //@   requires[identifier;C14] jsok(loopVar)
 //@   ensures[generated-names;C14] jsok(lVar) && jsok(lLimit)
 //@ func (*scope).pushForEach
-//@   props C14
+//@   props C14 C09
 //@   nosafety
 //@   modifies *
+//@   preserves F!github.com/robfig/soy/ast.* F!github.com/robfig/soy/template.* E!Iface E!Str E!Int:uint8 E!Int:*github.com/robfig/soy/ast.*
 //@   requires[identifier;C14] jsok(loopVar)
 //@   ensures[generated-names;C14] jsok(lVar) && jsok(lList) && jsok(lLen) && jsok(lIndex)
 
@@ -127,6 +132,8 @@ package soyjs
 //@   like jsEmitter
 //@ func (*state).visitPrint
 //@   like jsEmitter
+//@   loop 0
+//@     invariant[filtered-list-is-a-new-slice;C09] fresh(directives)
 //@ func (*state).visitFunction
 //@   like jsEmitter
 //@ func (*state).visitCall
